@@ -200,6 +200,15 @@ static int h_parsecb(cfg_t *cfg, cfg_opt_t *opt, const char *value, void *result
 		}
 		default: break;
 		}
+	} else {
+		/* a callback that refuses may already have written to its result: the library must not look at it */
+		switch (opt->type) {
+		case CFGT_INT: *(long *)result = -777777; break;
+		case CFGT_FLOAT: *(double *)result = -7777.75; break;
+		case CFGT_BOOL: *(int *)result = 1; break;
+		case CFGT_STR: *(const char **)result = "scribbled by a refusing callback"; break;
+		default: break;
+		}
 	}
 	fprintf(LOG, "{\"ev\":\"cb\",\"k\":\"parse\",\"n\":%ld,\"opt\":", cbcount);
 	jhex(opt->name);
